@@ -16,6 +16,7 @@ import GenjaxModel.Model.ChainMultiIO
 import GenjaxModel.Model.SeedVecIO
 import GenjaxModel.Model.ViElboIO
 import GenjaxModel.Model.AdevProgIO
+import GenjaxModel.Model.AdevDet2IO
 /-! Line-protocol driver: one S-expression per input line, one per output line. -/
 open Genjax
 
@@ -75,6 +76,9 @@ def dispatch (e : SExp) : SExp :=
   | some r => r
   | none =>
   match stepAdevProg e with
+  | some r => r
+  | none =>
+  match Adev2.stepAdevDet2 e with
   | some r => r
   | none => .list [.atom "bad-op"]
 
